@@ -69,6 +69,15 @@ CLAIMED.update({
          "List replacement at migration and 'entry replaced by the GCA-signed ban entry' follow the documented behaviour; the rogue cannot forge GCA signatures."),
 })
 
+CLAIMED.update({
+ "C18": ("exploration", "5.16", "The EventLogger alone under the simulated clock: 100-3000 calls per run (Printf with line lengths 0..2x the line limit, repeated and fresh lines; ExpireLogs at cut times before/between/after stored timestamps; DumpLogEntries) with clock advances of 0 ns (ties), nanoseconds, around the expiry and simulated years, over seven (max bytes, max line) x five expiry configurations incl. a maximum smaller than one line; after every call the dump is compared with a bounded-log reference model (exact timestamps, bound, accounting after expiry, newest retained, eviction least-recently-updated first and minimal with ties accepted, truncation, dump order, no panic).",
+         "Observed through DumpLogEntries only; ties in update time accept any consistent eviction."),
+ "C19": ("exploration", "5.17", "The rate limiter with 1-64 caller tasks under the simulated clock over limits 1-10 and windows 1 ms - 1 h; arrival patterns tight loop, bursts, paced just below/above the window share, exact multiples of the window; callers park after waking so same-instant arrivals execute in a seeded order, every call is stamped with the exact simulated time; over-admission = limit+1 admissions spanning strictly less than the window, starvation = rejection with fewer than limit admissions in the closed preceding window (certain violations only).",
+         "Real parallel callers of the limiter are exercised by C13's race mode through the archive endpoint."),
+ "C20": ("exploration", "5.18", "Production-constant flavour (-tags verif): (a) the simulated clock walks from before genesis through slot edges, strides of hours to years and the end of the 32 bit second range (year 2159); at every visited instant CurrentTimeslot, UnixToTimeslot and TimeslotToUnix are compared with an integer model (round trip, monotonicity, pre-genesis refusal, genesis constant). (c) a production-constant server runs 2-4 simulated weeks with two devices reporting now+432 and now-432 every slot, the hourly rotation check delayed by up to one period, WattTime answering / slow / failing through the http.DefaultTransport seam: no report acceptable by its timeslot may fall outside the stored window, now-offset+432 stays below 4032, weeks archive contiguously, model agreement.",
+         "The pure conversions are exercised at visited instants plus listed boundaries (input enumeration, stated as such); the acceptance comparison at now<432 is covered by C01 in the test flavour, now near 2^32 is unreachable by real rotations."),
+})
+
 NOT_YET = {
 }
 
